@@ -306,6 +306,23 @@ ADDED5 = {
     'C19': ' D10: parsing tables and result caches (shared with C02.D13).',
 }
 
+ADDED6 = {
+    'C01': ' D13: x86_mn.__str__ interpreted as a whole (Intel and AT&T) on every decoder form with an immediate: immediates that differ in a low bit, in bits 3-7 or in the top bit give different texts.',
+    'C02': ' D14: asm_candidates run from its first statement until it sets the operand-size mode, on 25 lines with 16 / 32-bit registers, 16-bit memory operands and segment registers: 0x66 exactly when the general register operand is 16 bits wide.',
+    'C03': ' D12: rendering determines the immediate (shared with C01.D13). D3 also on the same address written with its registers in the other order.',
+    'C04': ' D18: the effective address dict_to_Expr builds, evaluated on merged base / index coefficients (3, 5, 9), two registers, displacements, both address sizes.',
+    'C05': ' The family also holds complement-of-sum shapes (!(!X + c)) alone and inside longer xors.',
+    'C06': ' D13: eval_ExprCond interpreted on 28 kinds of evaluated condition: the returned node has the value of the selected arm under every valuation.',
+    'C08': ' D10: an MMX/SSE destination register the architecture merges into is among the reads, whichever semantic function lifts the row (explicit merge / full-overwrite tables; other rows give a note). The form model has +r0 forms.',
+    'C10': ' D12: no constant-index read of a list the decoder starts empty and fills in some branches only, unless a test of the list, an IndexError handler or an unconditional fill is on the way.',
+    'C11': ' The form model has +r0 forms (register number 0 in opcode + register rows: both operands are then one register).',
+    'C12': ' D18: no container created once in a class body is changed in place through self unless __init__ gives every instance its own.',
+    'C13': ' Order groups for the complement-of-sum shapes.',
+    'C17': ' The row model binds addop calls like python does (keywords; defaults evaluated once and shared by the calls that omit the argument).',
+    'C18': ' D8 vectors include the sign-boundary values of every field of four bits or more.',
+    'C19': ' D11: the Intel SIZE PTR seg:[formula] action on every segment x address shape, order twins included (shared with C03.D3).',
+}
+
 PENDING = {}
 
 ALL = ['C%02d' % i for i in range(1, 20)]
@@ -324,7 +341,7 @@ def main():
             'evidence_file': '/verif/evidence/%s.json' % pid,
             'replay_cmd_template': './check %s --replay {path}' % pid,
             'engine': 'sa',
-            'level_claimed': {'category': cat, 'text': text + ADDED.get(pid, '') + ADDED3.get(pid, '') + ADDED4.get(pid, '') + ADDED5.get(pid, ''), 'design_ref': 'DESIGN.md section 5 and 12, %s' % pid},
+            'level_claimed': {'category': cat, 'text': text + ADDED.get(pid, '') + ADDED3.get(pid, '') + ADDED4.get(pid, '') + ADDED5.get(pid, '') + ADDED6.get(pid, ''), 'design_ref': 'DESIGN.md section 5 and 12, %s' % pid},
             'level_note': note,
             'technique': tech + TECH3.get(pid, ''),
         })
